@@ -350,6 +350,31 @@ def check_ties(units):
     return res
 
 
+def coqchk_ties(units, limit=6):
+    """Thorough tier: independent re-check (coqchk) of the compiled tie files of a property (the `limit` largest ones,
+    in parallel); they were compiled by check_ties into WORK/tie/src with logical prefix BMTieCheck."""
+    import concurrent.futures
+    srcdir = os.path.join(TIEOUT, "src")
+    stems = [st for _, st in units if st.startswith("Tie") and os.path.exists(os.path.join(srcdir, st + ".vo"))]
+    stems = sorted(stems, key=lambda st: -os.path.getsize(os.path.join(srcdir, st + ".vo")))[:limit]
+    t0 = time.time()
+
+    def one(st):
+        r = subprocess.run(["timeout", "1500", "coqchk", "-o", "-silent", "-Q", COQ, "BM", "-Q", GEN, "BMGen",
+                            "-Q", srcdir, "BMTieCheck", "BMTieCheck." + st],
+                           stdout=subprocess.PIPE, stderr=subprocess.STDOUT, text=True, cwd=COQ)
+        ax = re.search(r"\* Axioms:\s*(.*)", r.stdout)
+        return st, r.returncode, (ax.group(1).strip() if ax else "?"), r.stdout[-600:]
+
+    with concurrent.futures.ThreadPoolExecutor(max_workers=6) as ex:
+        res = list(ex.map(one, stems))
+    for st, rc, ax, out in res:
+        if rc != 0 or ax != "<none>":
+            raise BuildError("coqchk on tie file %s: rc=%d axioms=%s %s" % (st, rc, ax, out))
+    return dict(cmd="coqchk -o -silent -Q coq BM -Q .work/gen BMGen -Q .work/tie/src BMTieCheck BMTieCheck.<tie file>",
+                files=[st for st, _, _, _ in res], axioms=["<none>"], wall_s=round(time.time() - t0, 1))
+
+
 # ------------------------------------------------------------------------------------------------
 # Rust side
 # ------------------------------------------------------------------------------------------------
